@@ -318,11 +318,22 @@ func (ie *ImageExtractor) isVisibleInside(node, root *html.Node) bool {
 }
 
 func (ie *ImageExtractor) createFigCaption(base *html.Node) *html.Node {
-	// In some sites noscript is put inside figure caption (eg Medium).
-	// So, before fetching the inner text we need to parse it first.
-	tmp := dom.CreateElement("div")
-	dom.SetInnerHTML(tmp, domutil.InnerText(base))
-	baseText := domutil.InnerText(tmp)
+	// In some sites noscript is put inside figure caption (eg Medium), and its
+	// content is markup that the parser kept as plain text. So, before fetching
+	// the inner text we need to parse it first. Only the content of noscript is
+	// parsed: the rest of the caption is text already, and parsing it again would
+	// turn escaped characters into markup.
+	clone := dom.Clone(base, true)
+	for _, noscript := range dom.GetElementsByTagName(clone, "noscript") {
+		if noscript.Parent == nil || dom.FirstElementChild(noscript) != nil {
+			continue
+		}
+
+		tmp := dom.CreateElement("div")
+		dom.SetInnerHTML(tmp, dom.TextContent(noscript))
+		dom.ReplaceChild(noscript.Parent, tmp, noscript)
+	}
+	baseText := domutil.InnerText(clone)
 
 	figCaption := dom.CreateElement("figcaption")
 	dom.SetTextContent(figCaption, strings.TrimSpace(baseText))
